@@ -69,6 +69,10 @@ def _run_one(job):
         if kind == 'scan':
             _, name = job
             return ('scan', scans.run_scan(table(), SPECS, name))
+        if kind == 'diff':
+            from . import differential
+            _, qual, cls = job
+            return ('diff', differential.run(table(), SPECS, SPECS.contracts[qual], cls, ROOT))
     except Exception as e:  # checker crash inside a worker
         import traceback
         return ('crash', f'{job}: {type(e).__name__}: {e}\n{traceback.format_exc()[-2000:]}')
@@ -142,6 +146,9 @@ def check_property(pid, tier):
     jobs = [('task', q, c, both) for q, c in tasks_for(pid)]
     jobs += [('lemma', name, both) for name, text, props, note in SPECS.lemmas if pid in props]
     jobs += [('scan', name) for name, (props, fn, note) in scans.SCANS.items() if pid in props]
+    if both and os.environ.get('PYVC_DIFFERENTIAL', '1') != '0':
+        # thorough: CPython differential cross-check of the verifier on solver-generated entry states (pyvc/differential.py)
+        jobs += [('diff', q, c) for q, c in tasks_for(pid)]
     nproc = int(os.environ.get('PYVC_PROCS', '16'))
     table()
     if nproc > 1 and len(jobs) > 1:
@@ -152,6 +159,7 @@ def check_property(pid, tier):
         outs = [_run_one(j) for j in jobs]
 
     results, errors, undecided, functions, loops, notes, canaries = [], [], [], [], set(), set(), 0
+    diffs = []
     solver_s = 0.0
     for job, (kind, res) in zip(jobs, outs):
         if kind == 'crash':
@@ -177,6 +185,11 @@ def check_property(pid, tier):
             results += res
         elif kind == 'scan':
             results += res
+        elif kind == 'diff':
+            diffs.append(res)
+            for dd in res.get('disagreed', []):
+                errors.append(f"differential: CPython disagrees with a proved contract of {res['task']} on path "
+                              f"{' | '.join(dd.get('path', [])[-4:])}: {dd.get('native', '')[-600:]}")
     for r in results:
         solver_s += r.get('seconds', 0)
 
@@ -277,7 +290,7 @@ def check_property(pid, tier):
 
     wall = time.time() - t0
     write_evidence(pid, tier, results, functions, loops, notes, canaries, solver_s, wall, n_obl, n_ok,
-                   by_backend, known_hit, vio_records, unknown, undecided, errors)
+                   by_backend, known_hit, vio_records, unknown, undecided, errors, diffs)
     print('\n'.join(lines))
     print(f'{pid}: {n_ok}/{n_obl} obligations discharged, {len(violations)} violation(s), {len(known_hit)} known '
           f'finding(s), {len(unknown) + len(undecided)} undecided, {len(errors)} checker error(s); '
@@ -286,7 +299,7 @@ def check_property(pid, tier):
 
 
 def write_evidence(pid, tier, results, functions, loops, notes, canaries, solver_s, wall, n_obl, n_ok, by_backend,
-                   known_hit, vio_records, unknown, undecided, errors):
+                   known_hit, vio_records, unknown, undecided, errors, diffs=()):
     from . import claims
     info = claims.CLAIMS.get(pid, {})
     samples = []
@@ -318,6 +331,19 @@ def write_evidence(pid, tier, results, functions, loops, notes, canaries, solver
             'samples': samples,
             'slow': slow,
             'bounded': info.get('bounded', []),
+            'differential_cpython': ({
+                'what': 'entry states generated by the solver (bounded unrolling), real method run by CPython, every contract '
+                        'clause evaluated natively; a cross-check of the verifier, not counted as proof',
+                'tasks': len(diffs), 'tasks_with_samples': sum(1 for d_ in diffs if d_['samples']),
+                'samples': sum(d_['samples'] for d_ in diffs), 'agreed': sum(d_['agreed'] for d_ in diffs),
+                'disagreed': sum(len(d_['disagreed']) for d_ in diffs),
+                'clauses_true_natively': sum(d_.get('clauses_true', 0) for d_ in diffs),
+                'clauses_not_evaluable_natively': sum(d_.get('not_evaluable', 0) for d_ in diffs),
+                'entry_states_not_legal_natively': sum(d_.get('entry_not_legal_natively', 0) for d_ in diffs),
+                'not_replayable': sum(d_['not_replayable'] for d_ in diffs),
+                'without_samples': [d_['task'] + (': ' + d_['note'] if d_.get('note') else '') for d_ in diffs if not d_['samples']][:40],
+            } if diffs else None),
+            'traces_validated_against_impl': sum(d_['agreed'] for d_ in diffs),
             'known_findings_matched': [{'obligation': r['name'], 'witness': k.get('witness')} for k, r in known_hit],
             'undecided': [r['name'] for r in unknown] + undecided,
             'checker_errors': errors[:10],
